@@ -12,6 +12,17 @@ sys.path.insert(0, common.VERIF + "/translator")
 
 PID = "C13"
 EXIT_CODE = 77
+FINISHED = 112   # c13_child: phase 1 ended without the handler ending the process
+
+
+def conf_exit(t):
+    return int(t.get("exit_code", EXIT_CODE))
+
+
+def exit_msg(code, t):
+    if code == FINISHED:
+        return f"the handler did not end the process (the run went on to its end), configured exit code {conf_exit(t)}"
+    return f"the handler exited with code {code}, configured {conf_exit(t)}"
 SRC_NS = "nessai/samplers/nestedsampler.py"
 SRC_INS = "nessai/samplers/importancesampler.py"
 KEY_D2 = "C13:standard:signal-between-IncrState-and-AppendIdx"
@@ -54,6 +65,13 @@ def translate(chk):
         st["ins"] = "translated: " + out["ins"]
     if out["signals"]:
         st["signals"] = "safe_exit registered for " + ", ".join(out["signals"])
+    try:
+        out["fields"] = c13_handler.proposal_fields()
+        st["proposal_fields"] = (f"__getstate__ drops {out['fields']['dropped']}; read by draw/populate and not restored: "
+                                 f"{out['fields']['missing']}; options guarding reads of what only train() sets: {out['fields']['flags']}")
+    except Declined as e:
+        out["fields"] = None
+        st["proposal_fields"] = f"declined: {e}"
     try:
         out["regs"] = c13_handler.registrations()
         st["regs"] = "translated: " + out["regs"][0]
@@ -178,6 +196,20 @@ def today(chk, tr):
     else:
         chk.oblige("today: resume_seed_ok (seeding calls on the resume path) - CANNOT BE EVALUATED", "today", False,
                    str(chk.translator.get("resume_seeding")))
+    if tr.get("fields") is not None:
+        d, r, rs = tr["fields"]["coq"]
+        txt = HDR + f"Definition dropped_now : list string := {d}.\nDefinition read_now : list string := {r}.\n"
+        txt += f"Definition restored_now : list string := {rs}.\n"
+        txt += "Lemma today : fields_ok dropped_now read_now restored_now = true.\nProof. vm_compute. reflexivity. Qed.\n"
+        txt += ("Lemma today_property : forall (st : fstore) f, In f read_now -> st f = true -> "
+                "pickle_resume dropped_now restored_now st f = true.\nProof. exact (fields_sound dropped_now read_now restored_now today). Qed.\n")
+        ok, _, err = chk.coq_run("today_proposal_fields", txt)
+        chk.oblige("today: fields_ok (every attribute FlowProposal.draw / populate read that __getstate__ drops is restored by "
+                   "resume or re-derived in populate - a signal inside populate resumes without retraining) + instantiated "
+                   "fields_sound", "today", ok, (err or "") + " dropped, read, not restored: " + str(tr["fields"]["missing"]))
+    else:
+        chk.oblige("today: fields_ok (attributes read by FlowProposal.populate vs __getstate__ / resume) - CANNOT BE EVALUATED",
+                   "today", False, str(chk.translator.get("proposal_fields")))
     if tr.get("regs"):
         txt = HDR + f"Definition regs_now : list reg := {tr['regs'][0]}.\n"
         txt += "Lemma today : regs_ok regs_now = true.\nProof. vm_compute. reflexivity. Qed.\n"
@@ -291,6 +323,27 @@ def build_tasks(chk, tr):
             tasks.append({"sampler": "standard", "phase": "registered-handler", "func": "NestedSampler.consume_sample",
                           "lineno": ln, "text": txt, "occ": occ, "after": 7, "real_signal": True, "signum": sg,
                           "prior_samplers": npri})
+    # --- the configured exit code: other values than the harness default, 0 included ------------------------------
+    for ln, txt, occ in first:
+        base = {"sampler": "standard", "phase": "exit-code", "func": "NestedSampler.consume_sample", "lineno": ln,
+                "text": txt, "occ": occ, "after": 6}
+        codes = [(0, "SIGTERM"), (1, None), (255, None)] if quick else \
+            [(c, sg) for c in (0, 1, 2, 130, 255) for sg in (None, "SIGTERM", "SIGINT", "SIGALRM")]
+        for code, sg in codes:
+            t = dict(base, exit_code=code)
+            if sg:
+                t.update(real_signal=True, signum=sg)
+            tasks.append(t)
+    # --- inside FlowProposal.populate under the configurations in which it reads what only train() sets -----------
+    flags = (tr.get("fields") or {}).get("flags") or []
+    pl = lines("nessai/proposal/flowproposal.py", "FlowProposal", "populate")
+    if pl:
+        pick = [pl[0], pl[len(pl) // 2]] if quick else pl[:: max(1, len(pl) // 8)]
+        for fl in flags:
+            for ln, txt, occ in pick:
+                tasks.append({"sampler": "standard", "phase": "populate-config", "func": "FlowProposal.populate", "lineno": ln,
+                              "text": txt, "occ": occ, "after": 45,
+                              "proposal_kwargs": {fl: True, "constant_volume_mode": False}})
     # --- histories with SEVERAL signals in one run: signal, resume, signal, resume, [signal, resume,] finish ---------
     for ln, txt, occ in first:
         base = {"sampler": "standard", "func": "NestedSampler.consume_sample", "lineno": ln, "text": txt, "occ": occ}
@@ -371,8 +424,8 @@ def verdict_standard(o):
     """-> list of failures (what) of the resumed run; empty = the signal was safe"""
     bad = []
     f, b = o.get("final"), o["inject"].get("base")
-    if o.get("exit") != EXIT_CODE:
-        bad.append(f"the handler exited with code {o.get('exit')}, configured {EXIT_CODE}")
+    if o.get("exit") != conf_exit(o["task"]):
+        bad.append(exit_msg(o.get("exit"), o["task"]))
     if o.get("checkpoint") is None:
         bad.append("no loadable checkpoint was left: " + str(o.get("checkpoint_error")))
     ck = o.get("checkpoint")
@@ -389,8 +442,8 @@ def verdict_standard(o):
     for stg in o.get("stages") or []:
         if not stg.get("reached"):
             continue
-        if stg.get("exit") != EXIT_CODE and stg["stage"] < len(o["stages"]) - 1:
-            bad.append(f"signal {stg['stage'] + 1} of the history: exit code {stg.get('exit')}, configured {EXIT_CODE}")
+        if stg.get("exit") != conf_exit(o["task"]) and stg["stage"] < len(o["stages"]) - 1:
+            bad.append(f"signal {stg['stage'] + 1} of the history: exit code {stg.get('exit')}, configured {conf_exit(o['task'])}")
         if prev is not None and stg.get("started_at") != prev:
             bad.append(f"after signal {stg['stage']} the run resumed at iteration {stg.get('started_at')}, its checkpoint was "
                        f"written at iteration {prev}")
@@ -426,8 +479,8 @@ def verdict_standard(o):
 def verdict_ins(o):
     bad = []
     f, i = o.get("final"), o["inject"]
-    if o.get("exit") != EXIT_CODE:
-        bad.append(f"the handler exited with code {o.get('exit')}, configured {EXIT_CODE}")
+    if o.get("exit") != conf_exit(o["task"]):
+        bad.append(exit_msg(o.get("exit"), o["task"]))
     if o.get("files_after") != i.get("files_before"):
         bad.append("the last iteration-boundary checkpoint was modified after the signal")
     if not f or not f.get("completed"):
@@ -456,7 +509,7 @@ def failure_key(o, d, stmts):
     """Semantic identity of an unsafe signal = the statement of the iteration (function + normalised text, no line
     numbers) before / inside which it was delivered.  Which of these are known findings is decided by
     known_findings.d/C13.json alone (key_regex over the statements that are unsafe on the pinned tree)."""
-    if o.get("exit") != EXIT_CODE:
+    if o.get("exit") != conf_exit(o["task"]):
         return "C13:standard:exit-code"
     t = o["task"]
     if t.get("second_signal"):
@@ -466,7 +519,10 @@ def failure_key(o, d, stmts):
     so = statement_of(o, stmts)
     if so is not None:
         mode, fn, txt = so
-        return f"C13:standard:unsafe:{mode}:{fn}:{txt[:120]}"
+        # how the resumed run fails is part of the identity: an inconsistent result, or a crash of a given class
+        f = o.get("final") or {}
+        how = "result" if f.get("completed") else "crash:" + str(f.get("error", "no-result")).split(":")[0]
+        return f"C13:standard:unsafe:{mode}:{fn}:{txt[:120]}|{how}"
     sig = "".join("1" if x else "0" for x in d) if d is not None else "nockpt"
     return f"C13:standard:unsafe:outside-iteration:{sig}:{t['func']}:{' '.join(t['text'].split())[:80]}"
 
@@ -655,6 +711,14 @@ def replay(data):
                       "final": {k: v for k, v in (o.get("final") or {}).items() if k not in ("ids", "tb")},
                       "failures": bad}, indent=1))
     if bad:
+        def is_known(k):
+            return k is not None and any(k == f["key"] or (f.get("key_regex") and re.fullmatch(f["key_regex"], k))
+                                         for f in common.load_known() if f.get("property") == PID and f.get("status", "open") == "open")
+        if is_known(key) and not is_known(data.get("key")):
+            # the recorded failure does not reproduce; what is observed here is one of the open known findings
+            print(f"KNOWN-FINDING: property={PID} the recorded failure ({data.get('key')}) does not reproduce; observed instead "
+                  f"the open finding {key}: {bad[0]}")
+            return 0
         print(f"VIOLATION property={PID} replay=(replayed) signal before `{t['text']}`: {bad[0]}")
         return 1
     return 0
